@@ -11,6 +11,7 @@ PROPS = {
     "C04": _crdt("C04", 3000, 4000),
     "C05": _crdt("C05", 1500, 2000),
     "C16": _crdt("C16", 3000, 4000),
+    "C15": {"jobs": [{"pkg": "iter", "run": "^TestC15$", "checks_quick": 4000, "checks_thorough": 6000, "shards_thorough": 16}]},
     "C19": {"jobs": [{"pkg": "order", "run": "^TestC19$", "checks_quick": 60000, "checks_thorough": 150000, "shards_thorough": 16}]},
 }
 
